@@ -105,6 +105,43 @@ PROPS["C09"] = dict(
     note="Bounded. Trusted: engine semantics, z3, the recording driver / copying revision table models (harness/migrate/zz_verif_model.go).",
 )
 
+_c11_reach = ["pending", "no-pending", "non-linear", "dirty"]
+PROPS["C11"] = dict(
+    MIGRATE,
+    runs={
+        "quick": [
+            dict(harness="VerifHarness_C11_quick", reach=_c11_reach),
+            dict(harness="VerifHarness_C11_count3", reach=_c11_reach),
+            dict(harness="VerifHarness_C11_sym3", reach=_c11_reach),
+        ],
+        "thorough": [
+            dict(harness="VerifHarness_C11_thorough", reach=_c11_reach),
+            dict(harness="VerifHarness_C11_count4", reach=_c11_reach),
+            dict(harness="VerifHarness_C11_sym4", reach=_c11_reach),
+        ],
+    },
+    bounds={
+        "quick": "directories of 1..4 versions, any subset marked checkpoint, any subset with a revision, last revision complete or partial, "
+                 "3 execution orders, first run x {clean, dirty} x {plain, allow-dirty, baseline at any version}; apply-with-count 0..n+1 on <=3 versions; "
+                 "symbolic one-byte version strings (ordering decided by the solver) on <=3 versions",
+        "thorough": "same with 1..5 versions (count: 4, symbolic versions: 4); unsat answers cross-checked",
+    },
+    assumptions=[
+        "reachable histories only: revisions sorted by version and belonging to directory files, only the last revision may be partial, "
+        "a revision of a checkpoint file is the first revision; baseline and allow-dirty mutually exclusive (NewExecutor rejects both)",
+        "model directory holds pre-scanned one-statement files and a sum file produced by the real NewHashFile/MarshalText (so the real "
+        "Validate runs); SHA-256 = injective opaque token",
+        "presence bits (checkpoint?, revision?) are structural and explored by forking; version bytes are solver variables in the sym runs",
+    ],
+    outside="status / set-version CLI commands and their reports (cmdapi, cmdlog); revisions for versions missing from the directory; "
+            "directories of more than 5 versions",
+    claim="For every directory, history and option combination within the bounds, the real Executor.Pending (and ExecuteN on an identical "
+          "store) returns exactly the documented pending list or error: compared against an independent reference of the documented semantics "
+          "plus reference-free invariants (no fully applied version pending, duplicate-free, partial file first).",
+    note="Bounded; structural enumeration by path forking with solver-decided version ordering. Trusted: the reference semantics in "
+         "harness/migrate/zz_verif_c11.go, engine, z3, environment models.",
+)
+
 NOT_APPLICABLE = {
     "C01": "needs a real SQLite engine executing the planned SQL and pragma-based inspection; neither cgo code nor SQLite's DDL "
            "semantics can be encoded by an SSA-level symbolic executor, and a hand-written catalogue model would verify the model, not Atlas "
